@@ -55,12 +55,12 @@ Definition tfs_req (tb : nat) (p : bplan) (b : bstep) : list tdesc :=
 (* Permutation up to tdesc_equiv *)
 Definition tdescs_equiv (a b : list tdesc) : Prop := exists q, Permutation a q /\ Forall2 tdesc_equiv q b.
 
-(* b (in plan p) and b' (in plan p') are the same step.  any_uuid is a representative like a uuid: not compared. *)
+(* b (in plan p) and b' (in plan p') are the same step.  any_uuid is a representative like a uuid: not compared;
+   children_if_root is a function of the step's features and the graph alone (PlannerA.cir_of): not compared either. *)
 Definition bstep_equiv (tb : nat) (p p' : bplan) (b b' : bstep) : Prop :=
   skind (bs b) = skind (bs b') /\ requested (bs b) = requested (bs b') /\
   b_cfw b = b_cfw b' /\ b_from b = b_from b' /\ b_grp b = b_grp b' /\ b_fgrp b = b_fgrp b' /\
-  (is_tfs b = false -> Permutation (uuids (bs b)) (uuids (bs b')) /\ Permutation (b_cir b) (b_cir b') /\
-                       List.length (b_tfs b) = List.length (b_tfs b')) /\
+  (is_tfs b = false -> Permutation (uuids (bs b)) (uuids (bs b')) /\ List.length (b_tfs b) = List.length (b_tfs b')) /\
   Permutation (feat_req tb b) (feat_req tb b') /\
   tdescs_equiv (tfs_req tb p b) (tfs_req tb p' b').
 Definition bplan_equiv (tb : nat) (p p' : bplan) : Prop := exists q, Permutation p q /\ Forall2 (bstep_equiv tb p p') q p'.
